@@ -2,7 +2,7 @@
 # eval_seeds_wt.sh <tier> seed-id...: like eval_seeds.sh but applies each patch in the scratch worktree
 # /tmp/wt_eval and runs the check against it through PYTHONPATH (used while /repo is busy).
 tier=$1; shift
-wt=/tmp/wt_eval
+wt=${WT:-/tmp/wt_eval}
 for sid in "$@"; do
   prop=${sid%%-*}
   cd $wt && git checkout -q -- . && git apply /verif/seeded/$sid/patch.diff || { echo "SEED $sid DOES NOT APPLY"; continue; }
